@@ -50,5 +50,6 @@ Complete == /\ chain # <<>> /\ ts \in Sinkable
 \* collection quadratic in the number of chains
 Collect == IF Complete THEN PrintT(ToString(<<"CHAIN", chain>>)) ELSE TRUE
 
-Post == PrintT(<<"PROGSPACE", TLCGet("distinct")>>)
+ASSUME TLCSet(3, 0)
+Post == PrintT(<<"PROGSPACE", TLCGet(3)>>)
 =============================================================================
